@@ -27,6 +27,16 @@ class Check(PropertyCheck):
             f, plain = declib.bzcraft.valid_file(rng, 200)
             if len(f) < 1500:
                 files.append(f)
+        # stored CRCs with special values (0, one bit set, all ones): a flipped bit then gives 0 / a power of two / ...
+        bc = declib.bzcraft
+        for tgt in [0, 0xFFFFFFFF, 1 << rng.below(32), 1 << rng.below(32), 0x80000000, 1] + ([1 << k for k in range(32)] if self.tier != "quick" else []):
+            d = bc.random_plain(rng, 60)
+            d = bytes(d) + bc.forge_crc_suffix(bytes(d), tgt)
+            blk = bc.Block(d)
+            mid = bc.to_bytes(bc.stream([blk], rng.range(1, 9), rng))
+            if rng.chance(1, 2):       # place it between other streams
+                mid = bc.valid_file(rng, 60)[0][:0] + bc.to_bytes(bc.stream([bc.valid_block(rng, 60)], 3, rng)) + mid + bc.to_bytes(bc.stream([bc.valid_block(rng, 60)], 7, rng))
+            files.append(mid)
         return files
 
     def positions(self, files):
